@@ -301,6 +301,9 @@ func c11Tree(lab []int, withLink bool, kind fsmodel.Kind) fsmodel.Tree {
 		if kind == fsmodel.File {
 			n.Data = fsmodel.Content(seed, 6)
 		}
+		if kind == fsmodel.Symlink {
+			n.Perm, n.Link = 0777, fmt.Sprintf("../target-%d", seed)
+		}
 		t = append(t, n)
 	}
 	if withLink {
